@@ -452,6 +452,53 @@ pub fn obs_markup(root: &SyntaxNode) -> Vec<Vec<String>> {
     v
 }
 
+// ---------------------------------------------------------------- no rewrapping (C08)
+
+fn count_newlines_in(node: &SyntaxNode) -> usize {
+    let mut ls = Vec::new();
+    leaves(node, &mut ls);
+    ls.iter().map(|l| l.text().chars().filter(|c| is_newline(*c)).count()).sum()
+}
+
+fn mixed_breaks_node(node: &SyntaxNode, inherited: bool, out: &mut Vec<String>) {
+    if node.kind() == K::Markup {
+        let kids: Vec<&SyntaxNode> = node.children().collect();
+        let mut start = 0;
+        for i in 0..=kids.len() {
+            let at_break = i == kids.len()
+                || kids[i].kind() == K::Parbreak
+                || (kids[i].kind() == K::Space && has_newline(kids[i].text()));
+            if !at_break {
+                continue;
+            }
+            let line = &kids[start..i];
+            start = i + 1;
+            // typstyle's own notion of a line that holds text (markup.rs `mixed_text`), inherited by what is nested in it
+            let mixed = inherited || line.iter().any(|c| matches!(c.kind(), K::Text | K::Strong | K::Emph | K::Raw));
+            for c in line {
+                if mixed && !matches!(c.kind(), K::Text | K::Space | K::LineComment | K::BlockComment) {
+                    out.push(format!("{:?}:{}", c.kind(), count_newlines_in(c)));
+                }
+                mixed_breaks_node(c, mixed, out);
+            }
+        }
+    } else {
+        let below_math = inherited || node.kind() == K::Math;
+        for c in node.children() {
+            mixed_breaks_node(c, below_math, out);
+        }
+    }
+}
+
+/// For every markup line that holds text (and everything nested in it, and everything below a Math node): the
+/// number of line breaks inside each of its pieces. Compared between the output at the configured width and the
+/// output at an unbounded width: a difference is a line of prose that was rewrapped.
+pub fn obs_mixed_breaks(root: &SyntaxNode) -> Vec<String> {
+    let mut v = Vec::new();
+    mixed_breaks_node(root, false, &mut v);
+    v
+}
+
 // ---------------------------------------------------------------- math (C09)
 
 fn edge_leaf(n: &SyntaxNode) -> String {
